@@ -22,6 +22,13 @@ RULE = ("grid of JSON requests per command and protocol mode: each field (top-le
         "'accepted' = device contacted) must lie in the verdict SET a reference classifier "
         "transcribed from docs/protocol*.md allows, and refused requests must leave the APDU "
         "log empty. distinct = (mode, command, set of deviating fields, deviation kinds)")
+RULE_ADDED = (
+              'Also: every seventh request is preceded by a link fault that leaves a reconnection '
+              'pending (any transport activity of a refused request counts as contact); characters '
+              'of every string leaf exchanged for look-alikes (non-ASCII digits, NUL, lone '
+              'surrogate, blanks, 0X); requests of 255..1000 blocks; request lines of 1 / 17 / 33 '
+              'MiB ')
+RULE = RULE + " " + RULE_ADDED.strip()
 ASSUMPTIONS = [
     "the reference classifier (pv/oracle/docs_protocol.py) is a reading of docs/protocol.md and "
     "docs/protocol-v1.md; where they are silent the allowed set is widened, and inputs whose "
